@@ -233,7 +233,7 @@ def sampling(draw, in_shape, per_axis=True):
 # ---------------------------------------------------------------------------
 # memory layout of caller arrays (value-preserving)
 
-LAYOUTS = ["C", "C", "F", "strided", "reversed", "transposed_view"]
+LAYOUTS = ["C", "C", "F", "strided", "reversed", "transposed_view", "big_endian"]
 
 
 def layouts():
@@ -245,6 +245,8 @@ def relayout(a, kind):
     Fortran order, a strided view into a larger buffer, a negatively strided view, or the
     transpose view of a C-ordered transpose."""
     a = np.asarray(a)
+    if kind == "big_endian":
+        return other_endian(a)
     if kind in (None, "C") or a.ndim < 2:
         return np.ascontiguousarray(a) if kind == "C" else a
     if kind == "F":
@@ -257,8 +259,18 @@ def relayout(a, kind):
         view[...] = a
         return view
     if kind == "reversed":
-        return np.ascontiguousarray(a[..., ::-1, ::-1])[..., ::-1, ::-1]
+        # (negatively strided, and - for the many call sites that pick from their own short list of layouts - stored in
+        # the other byte order as well: what astropy.io.fits hands back on a little-endian machine)
+        return other_endian(np.ascontiguousarray(a[..., ::-1, ::-1]))[..., ::-1, ::-1]
     raise ValueError(kind)
+
+
+def other_endian(a):
+    """the same values stored in the non-native byte order (dtype '>f8' etc. on a little-endian machine)"""
+    a = np.asarray(a)
+    if a.dtype.kind not in "fiuc" or a.dtype.itemsize == 1:
+        return a
+    return a.astype(a.dtype.newbyteorder("S"))
 
 
 def scales():
